@@ -82,14 +82,62 @@ pub fn ideal_minor(start: Point, end: Point, major_index: i64) -> (i64, i64) {
     }
 }
 
-/// Angle of the vector (dx, dy) in degrees in e-g's convention, measured with atan2(-dy, dx)?
-/// The library measures angles in screen coordinates: 0 deg = +x, 90 deg = -y (up on screen).
-/// Determined empirically in the design probes and re-checked by C18's own sanity clause.
-pub fn screen_angle_deg(dx: f64, dy: f64) -> f64 {
-    let a = (-dy).atan2(dx).to_degrees();
-    if a < 0.0 {
-        a + 360.0
+/// Distance from the point (px, py) to the ellipse (x/a)^2 + (y/b)^2 = 1 centred at the origin
+/// (a, b > 0), by Eberly's robust bisection ("Distance from a point to an ellipse").
+pub fn dist_to_ellipse(a: f64, b: f64, px: f64, py: f64) -> f64 {
+    let (px, py) = (px.abs(), py.abs());
+    let (e0, e1, y0, y1) = if a >= b { (a, b, px, py) } else { (b, a, py, px) };
+    if y1 > 0.0 {
+        if y0 > 0.0 {
+            let z0 = y0 / e0;
+            let z1 = y1 / e1;
+            let g = z0 * z0 + z1 * z1 - 1.0;
+            if g != 0.0 {
+                let r0 = (e0 / e1) * (e0 / e1);
+                let sbar = ellipse_root(r0, z0, z1, g);
+                let x0 = r0 * y0 / (sbar + r0);
+                let x1 = y1 / (sbar + 1.0);
+                ((x0 - y0).powi(2) + (x1 - y1).powi(2)).sqrt()
+            } else {
+                0.0
+            }
+        } else {
+            (y1 - e1).abs()
+        }
     } else {
-        a
+        let numer0 = e0 * y0;
+        let denom0 = e0 * e0 - e1 * e1;
+        if numer0 < denom0 {
+            let xde0 = numer0 / denom0;
+            let x0 = e0 * xde0;
+            let x1 = e1 * (1.0 - xde0 * xde0).max(0.0).sqrt();
+            ((x0 - y0).powi(2) + x1 * x1).sqrt()
+        } else {
+            (y0 - e0).abs()
+        }
     }
+}
+
+fn ellipse_root(r0: f64, z0: f64, z1: f64, g: f64) -> f64 {
+    let n0 = r0 * z0;
+    let mut s0 = z1 - 1.0;
+    let mut s1 = if g < 0.0 { 0.0 } else { (n0 * n0 + z1 * z1).sqrt() - 1.0 };
+    let mut s = 0.0;
+    for _ in 0..1100 {
+        s = (s0 + s1) / 2.0;
+        if s == s0 || s == s1 {
+            break;
+        }
+        let ratio0 = n0 / (s + r0);
+        let ratio1 = z1 / (s + 1.0);
+        let g = ratio0 * ratio0 + ratio1 * ratio1 - 1.0;
+        if g > 0.0 {
+            s0 = s;
+        } else if g < 0.0 {
+            s1 = s;
+        } else {
+            break;
+        }
+    }
+    s
 }
